@@ -36,12 +36,15 @@ type Case struct {
 
 func genCase(t *rapid.T) Case {
 	genOp := rapid.Custom(func(t *rapid.T) Op {
-		op := Op{K: rapid.SampledFrom([]string{"enqueue", "enqueue", "enqueue", "finish", "finish", "finish", "waitidle", "watch", "cancel", "probe"}).Draw(t, "k")}
+		op := Op{K: rapid.SampledFrom([]string{"enqueue", "enqueue", "enqueue", "finish", "finish", "finish", "waitidle", "waitidle", "watch", "cancel", "errsend", "probe"}).Draw(t, "k")}
 		switch op.K {
 		case "enqueue":
 			op.N = rapid.IntRange(0, 4).Draw(t, "n")
 		case "finish", "cancel":
 			op.Pick = rapid.IntRange(0, 5).Draw(t, "pick")
+		case "errsend":
+			op.Pick = rapid.IntRange(0, 5).Draw(t, "pick")
+			op.Pre = rapid.Bool().Draw(t, "nilerr") // Pre = send a nil error value
 		case "waitidle":
 			op.ErrCh = rapid.Bool().Draw(t, "errch")
 			op.Pre = rapid.IntRange(0, 11).Draw(t, "pre") == 0
@@ -74,6 +77,7 @@ type observer struct {
 	cancel    context.CancelFunc
 	cancelled bool
 	errCh     chan error
+	sent      []error
 	returned  bool
 	err       error
 	before    []*job // jobs whose Enqueue had returned when the call was issued
@@ -366,6 +370,11 @@ func body(c *sched.Ctl, cs Case, v *ev.Verdict) {
 						fail("conc:spurious-cancel", "%s #%d returned context.Canceled although its context is live", o.kind, o.id)
 					}
 				} else {
+					for _, e := range o.sent {
+						if e == err {
+							return
+						}
+					}
 					fail("conc:unknown-error", "%s #%d returned unexpected error %v", o.kind, o.id, err)
 				}
 			})
@@ -386,6 +395,27 @@ func body(c *sched.Ctl, cs Case, v *ev.Verdict) {
 			o.cancelled = true
 			hm.Unlock()
 			o.cancel()
+		case "errsend":
+			hm.Lock()
+			var el []*observer
+			for _, o := range observers {
+				if !o.returned && o.errCh != nil && len(o.errCh) == 0 {
+					el = append(el, o)
+				}
+			}
+			if len(el) == 0 {
+				eff = false
+				hm.Unlock()
+				break
+			}
+			o := el[op.Pick%len(el)]
+			var e error
+			if !op.Pre {
+				e = fmt.Errorf("errch-error-%d-%d", o.id, i)
+				o.sent = append(o.sent, e)
+			}
+			hm.Unlock()
+			o.errCh <- e
 		case "probe":
 			if c.Settle(true) {
 				quiescent(fmt.Sprintf("probe op %d", i), true)
